@@ -15,7 +15,8 @@ ASSUMPTIONS = [
     "client is reconnectable; safety (one at a time, at most one entry per request, order, tags, refusal) always",
     "the originating request is identified by a caller supplied 'reply' tag found in the entry's request or in the first element of its redirect history",
 ]
-BEHAVIOURS = ["now", "delay", "fragments", "redirect-path", "redirect-host", "close-after", "redirect-nolocation", "status-204", "redirect-http"]
+BEHAVIOURS = ["now", "delay", "fragments", "redirect-path", "redirect-host", "close-after", "redirect-nolocation", "status-204", "redirect-http",
+              "continue-first", "redirect-noport", "redirect-up-down"]
 STYLES = ["qargs+body", "dict", "query-in-path", "bare", "head"]       # how the caller queues a request
 CODES = [301, 302, 303, 307]
 
@@ -120,12 +121,19 @@ class Peer:
         ok = b"HTTP/1.1 200 OK\r\nContent-Length: %d\r\n\r\n" % len(body) + (b"" if method == "HEAD" else body)   # HEAD: the length, no body
         beh = "now"
         idx = None
-        if path.startswith("/r") and path[2:].isdigit():
+        if path.startswith("/up") and path[3:].isdigit():      # second hop of redirect-up-down: from https down to http
+            pending.append((0, ("HTTP/1.1 302 Redirect\r\nLocation: http://127.0.0.1:6101/down%s\r\nContent-Length: 0\r\n\r\n" % path[3:]).encode(), False))
+            path = None
+        if path is None:
+            pass
+        elif path.startswith("/r") and path[2:].isdigit():
             idx = int(path[2:])
             if idx not in w.used:
                 w.used.add(idx)
                 beh = w.behaviour(idx)
-        if beh == "now":
+        if path is None:
+            pass
+        elif beh == "now":
             pending.append((0, ok, False))
         elif beh == "delay":
             pending.append((2, ok, False))
@@ -134,6 +142,8 @@ class Peer:
             pending.append((0, ok[len(ok) // 2:], False))
         elif beh == "close-after":
             pending.append((0, ok, True))
+        elif beh == "continue-first":   # a bare interim response before the real one
+            pending.append((0, b"HTTP/1.1 100 Continue\r\n\r\n" + ok, False))
         elif beh == "status-204":       # an answer that has no body by definition and declares no length
             pending.append((0, b"HTTP/1.1 204 No Content\r\nX-Why: nothing\r\n\r\n", False))
         else:
@@ -144,6 +154,10 @@ class Peer:
                 loc = "/moved%d" % idx
             elif beh == "redirect-host":
                 loc = "http%s://127.0.0.1:6102/moved%d" % ("s" if w.tls else "", idx)
+            elif beh == "redirect-noport":       # absolute Location without a port: the scheme's default port, not the old one
+                loc = "http%s://127.0.0.1/np%d" % ("s" if w.tls else "", idx)
+            elif beh == "redirect-up-down":      # first hop to https on the other listener, which then sends the client to plain http
+                loc = "https://127.0.0.1:6102/up%d" % idx
             else:
                 loc = "http://127.0.0.1:6102/moved%d" % idx
             if beh != "redirect-nolocation":
@@ -188,6 +202,7 @@ def harness(job, ch):
     with fakenet.Installed(net):
         p1 = Peer(net, 6101, w)
         p2 = Peer(net, 6102, w)
+        p3 = Peer(net, 443 if tls else 80, w)      # the scheme's default port
         kw = dict(hostname="127.0.0.1", port=6101, reconnectable=reconnectable, tymeout=0.5, tymth=tymist.tymen())
         if tls:
             client = http.Client(scheme="https", context=fakenet.FakeSSLContext(net), **kw)
@@ -223,6 +238,7 @@ def harness(job, ch):
                 break
             p1.step()
             p2.step()
+            p3.step()
             if len(client.responses) >= nreq and not client.waited:
                 # a few more rounds to catch duplicates
                 for _ in range(3):
@@ -233,6 +249,7 @@ def harness(job, ch):
                         escaped = (tcpsys.site_of(ex), type(ex).__name__, str(ex)[:60])
                     p1.step()
                     p2.step()
+                    p3.step()
                 break
         viol = list(w.viol)
         if escaped:
@@ -253,15 +270,20 @@ def harness(job, ch):
         # redirect history attached
         for i, r in enumerate(client.responses):
             b = behs.get(i)
-            if b in ("redirect-path", "redirect-host") and i < len(tags) and tags[i] == want[i]:
+            # (after the first hop of an up-down chain the client talks https to the other listener: later requests start from there,
+            #  so a later Location with http:// is itself a refused downgrade - judged by the clauses below, not here)
+            moved_up = any(behs.get(j) == "redirect-up-down" for j in range(i))
+            if b in ("redirect-path", "redirect-host", "redirect-noport") and i < len(tags) and tags[i] == want[i] and not moved_up:
                 reds = r.get("redirects") or []
                 if not reds or reds[0].get("status") != codes.get(i):
                     viol.append(("redirect-history-missing", "request %d was redirected (%s %s) but its entry has redirects=%r" % (i, b, codes.get(i), [x.get("status") for x in reds])))
-                elif r.get("status") != 200 or bytes(r.get("body") or b"") not in (("echo:/moved%d" % i).encode(), b""):
+                elif b == "redirect-noport" and not any(p in (80, 443) and path == "/np%d" % i for p, path in w.seen):
+                    viol.append(("redirect-wrong-port", "request %d was sent to a Location without a port; the default port never saw it (requests seen: %s)" % (i, w.seen)))
+                elif r.get("status") != 200 or bytes(r.get("body") or b"") not in (("echo:/moved%d" % i).encode(), ("echo:/np%d" % i).encode(), b""):
                     viol.append(("redirect-not-followed", "request %d redirect entry status %r body %r" % (i, r.get("status"), bytes(r.get("body") or b"")[:30])))
         # a plainly answered request yields a plain entry whatever happened to earlier requests on this client
         for i, r in enumerate(client.responses):
-            if behs.get(i) in ("now", "delay", "fragments", "close-after", "status-204") and i < len(tags) and tags[i] == want[i]:
+            if behs.get(i) in ("now", "delay", "fragments", "close-after", "status-204", "continue-first") and i < len(tags) and tags[i] == want[i]:
                 # (the body is not compared: entries alias the parser's buffer, which the next response empties - outside C19)
                 if r.get("status") != (204 if behs.get(i) == "status-204" else 200) or r.get("errored") or (r.get("redirects") or []):
                     viol.append(("plain-response-entry:%s" % ("errored" if r.get("errored") else "redirects" if r.get("redirects") else "status"),
@@ -269,6 +291,11 @@ def harness(job, ch):
                                      i, r.get("status"), r.get("errored"), [x.get("status") for x in (r.get("redirects") or [])], bytes(r.get("body") or b"")[:20], behs)))
         # https -> http must be refused: error reported, plain listener never contacted for it
         for i, b in behs.items():
+            if b == "redirect-up-down":
+                if any(path == "/down%d" % i for p, path in w.seen):
+                    viol.append(("https-to-http-followed:second-hop", "client followed a redirect from https:// down to http:// (request %d, seen %s)" % (i, w.seen)))
+                if i < len(client.responses) and not client.responses[i].get("errored") and tags[i:i + 1] == [want[i]]:
+                    viol.append(("https-to-http-not-reported:second-hop", "refused redirect of request %d not reported as an error: %r" % (i, {k: client.responses[i].get(k) for k in ("status", "errored", "error")})))
             if b == "redirect-http":
                 if any(p == 6102 and path == "/moved%d" % i for p, path in w.seen):
                     viol.append(("https-to-http-followed", "TLS client followed a redirect to http:// (request %d)" % i))
@@ -293,8 +320,8 @@ def harness(job, ch):
         # after a redirect to another host the client runs on a fresh connector without the caller's reconnect
         # settings; the statement promises no progress through a connection the server closed
         closes = any(b == "close-after" for b in behs.values())
-        usable = not closes or (reconnectable and not any(b == "redirect-host" for b in behs.values()))
-        if usable and not escaped and len(client.responses) != nreq and "redirect-http" not in behs.values():
+        usable = not closes or (reconnectable and not any(b in ("redirect-host", "redirect-noport", "redirect-up-down") for b in behs.values()))
+        if usable and not escaped and len(client.responses) != nreq and "redirect-http" not in behs.values() and "redirect-up-down" not in behs.values():
             viol.append(("missing-response:%s" % ("reconnectable" if any(b == "close-after" for b in behs.values()) else "usable"),
                          "%d requests queued, %d responses after %d rounds (behaviours %s, tags %s)" % (nreq, len(client.responses), rounds, behs, tags)))
         obs = (tuple(sorted(behs.items())), tuple(sorted(codes.items())), tuple(sorted(styles.items())), tuple(tags), tuple(w.seen), escaped)
